@@ -1,3 +1,5 @@
+//go:build verif_c08
+
 package main
 
 // C08 — formula evaluator: operator, reference and coercion semantics.
